@@ -116,7 +116,12 @@ fn check_cyclic_dependencies(definitions: &Definitions) -> Result<()> {
   }
   for decision_service in definitions.decision_services() {
     if let Some(id) = decision_service.id() {
-      let required = decision_service.output_decisions().iter().chain(decision_service.encapsulated_decisions().iter());
+      // input decisions are evaluated by the decision service too
+      let required = decision_service
+        .output_decisions()
+        .iter()
+        .chain(decision_service.encapsulated_decisions().iter())
+        .chain(decision_service.input_decisions().iter());
       dependencies.insert(id.clone(), required.map(|href| <&str>::from(href).to_string()).collect());
     }
   }
